@@ -117,8 +117,8 @@ def racing(draw, ctx):
                      (u, draw(st.integers(0, npools - 1)), "; ".join(sprog)))
         creates.append("create %d" % u)
     main = list(creates)
-    for _ in range(draw(st.integers(1, 5))):
-        main += ["yieldn %d" % draw(st.integers(1, 6)), "advance %d" % draw(st.integers(200, 1500))]
+    for _ in range(draw(st.integers(2, 9))):
+        main += ["yieldn %d" % draw(st.integers(1, 6)), "advance %d" % draw(st.integers(100, 900))]
     for i, p in enumerate(exts):
         lines.append("ext %d : %s" % (i, "; ".join(p)))
     lines += units
@@ -131,7 +131,7 @@ def racing(draw, ctx):
 def cases(draw, ctx):
     if ctx.get("native"):
         return draw(phased_native(ctx))
-    return draw(st.one_of(phased(ctx), phased(ctx), racing(ctx)))
+    return draw(st.one_of(phased(ctx), racing(ctx)))
 
 
 @st.composite
@@ -199,7 +199,7 @@ def nontrivial(text, res, ctx):
 
 
 PLAN = {
-    "quick": [("coarse", 10, 250), ("san", 4, 80), ("native", 2, 100)],
+    "quick": [("coarse", 11, 500), ("san", 3, 150), ("native", 2, 150)],
     "thorough": [("coarse", 6, 5000), ("fine", 6, 3000), ("san", 2, 1500), ("nopool", 1, 1000),
                  ("native", 1, 1500)],
 }
